@@ -106,23 +106,24 @@ def _on_alarm(signum, frame):
 
 
 def run_real(root, dumper, inp, mode, entry, timeout=0.5):
-    """a case that runs longer than `timeout` seconds is reported as ('div',): the real parser spins on
-    repetitions whose body matches without consuming"""
+    """a case that runs longer than `timeout` seconds OF ITS OWN CPU TIME is reported as ('div',): the real parser spins on
+    repetitions whose body matches without consuming.  (ITIMER_VIRTUAL: a loaded machine does not turn a slow case into a
+    spin; corr.run_groups additionally re-runs with a larger budget before it believes a disagreement that involves a spin)"""
     import signal
-    old_handler = signal.signal(signal.SIGALRM, _on_alarm)
+    old_handler = signal.signal(signal.SIGVTALRM, _on_alarm)
     div = ("div",) if entry[0] != "scan" else ("scan", [], "div")
     try:
         try:
-            signal.setitimer(signal.ITIMER_REAL, timeout)
+            signal.setitimer(signal.ITIMER_VIRTUAL, timeout)
             r = _run_real(root, dumper, inp, mode, entry)
         finally:
-            signal.setitimer(signal.ITIMER_REAL, 0)
+            signal.setitimer(signal.ITIMER_VIRTUAL, 0)
     except _Timeout:
         r = div
     finally:
         try:
-            signal.setitimer(signal.ITIMER_REAL, 0)
-            signal.signal(signal.SIGALRM, old_handler)
+            signal.setitimer(signal.ITIMER_VIRTUAL, 0)
+            signal.signal(signal.SIGVTALRM, old_handler)
             LAST_STATS[:] = list(pp.ParserElement.packrat_cache_stats)
             pp.ParserElement.disable_memoization()
         except _Timeout:
